@@ -117,6 +117,9 @@ func (*c03) Corpus() []any {
 	a2f := *a2
 	a2f.WaitFail = true
 	out = append(out, hist(a1, &a2f, withK(c12Op("rollback", 0, eng.Flags{Version: 1}, nil), "patch", "ConfigMap/a"), a4(eng.Flags{Atomic: true})))
+	// K12: the same ledger without a deployed revision, upgrade --atomic --history-max 2 whose wait fails: the upgrade prunes
+	// revisions 1 and 2 (only a deployed revision is spared), nothing is left to roll back to: 3:failed 4:failed
+	out = append(out, hist(a1, a2, withK(c12Op("rollback", 0, eng.Flags{}, nil), "patch", "ConfigMap/a"), a4(eng.Flags{Atomic: true, MaxHistory: 2})))
 	// two failed non-atomic operations in a row (the witness of C03_history_contained_example): 1:deployed 2:failed 3:failed
 	out = append(out, hist(ab(eng.Flags{}), withK(c12Op("upgrade", 2, eng.Flags{}, nil, "a", "c"), "create", "ConfigMap/c"),
 		a4(eng.Flags{})))
